@@ -120,6 +120,10 @@ pub struct Features {
     pub same_gen_fill: usize,
     /// `new x` around a re-assignment of an existing scalar x
     pub new_shadowing: usize,
+    /// appends to a stream/map made inside the body of a stream-like fold
+    pub append_in_stream_fold: usize,
+    /// stream maps filled with a key that is written twice, canonicalised and folded over
+    pub rewritten_map_key: usize,
     /// ... whose body ends with a catchable error (caught by an xor outside the scope)
     pub new_left_by_error: usize,
 }
@@ -344,6 +348,23 @@ impl<'a> Elab<'a> {
             .collect()
     }
 
+    /// inside the body of a stream-like fold?
+    fn in_stream_fold(&self, env: &Env) -> bool {
+        env.iters.iter().any(|(_, _, st, _)| *st)
+    }
+
+    /// clean domain: no appends to streams/maps inside stream-like fold bodies (the order of such
+    /// appends differs between peers and a later fold over that stream cannot be merged: K8)
+    fn appends_allowed(&mut self, env: &Env) -> bool {
+        if self.in_stream_fold(env) {
+            if self.cfg.stream_fold_par_only {
+                return false;
+            }
+            self.feat.append_in_stream_fold += 1;
+        }
+        true
+    }
+
     fn iter_args(&self, env: &Env) -> Vec<(Arg, Shape)> {
         env.iters.iter().map(|(n, s, _, _)| (Arg::var(n), s.clone())).collect()
     }
@@ -371,6 +392,7 @@ impl<'a> Elab<'a> {
         }
         self.services.insert(func.clone(), ret.clone());
         self.feat.calls += 1;
+        let out_mode = if out_mode == 2 && !self.appends_allowed(env) { 1 } else { out_mode };
         let out = match out_mode {
             0 => None,
             1 => {
@@ -440,7 +462,7 @@ impl<'a> Elab<'a> {
                 I::Ap { src, dst: v }
             }
             // ---- ap stream
-            48..=55 if streams => {
+            48..=55 if streams && self.appends_allowed(env) => {
                 let (src, sh) = self.any_arg(env, l.args.first().cloned().unwrap_or([l.x, l.out, l.ret]));
                 let src = match src {
                     Arg::Var { ref name, ref lens, .. } if name.starts_with("#%") && lens.is_empty() => Arg::Str("m".into()),
@@ -458,7 +480,7 @@ impl<'a> Elab<'a> {
                 I::Ap { src, dst: name }
             }
             // ---- ap map
-            56..=61 if streams => {
+            56..=61 if streams && self.appends_allowed(env) => {
                 let (val, sh) = self.any_arg(env, l.args.first().cloned().unwrap_or([l.x, l.out, l.ret]));
                 let val = match val {
                     Arg::Var { ref name, ref lens, .. } if name.starts_with("#%") && lens.is_empty() => Arg::Str("m".into()),
@@ -710,6 +732,27 @@ impl<'a> Elab<'a> {
         // clean configuration: a stream-like fold is executed once, i.e. not inside any fold
         let no_nested = self.cfg.stream_fold_par_only && !env.iters.is_empty();
         if streams && !no_nested && pick(c[0], 100) < 45 && (env.streams.is_empty() || c[1] % 3 == 0) {
+            if c[1] % 8 == 3 {
+                // a stream map with a re-written key, canonicalised and folded over
+                let m = self.fresh("%m");
+                let cm = self.fresh("#%k");
+                let n = 3 + (c[2] % 3) as usize;
+                let mut v: Vec<I> = (0..n)
+                    .map(|k| I::ApMap { key: Arg::Str(format!("k{}", k % 2 + (k / 3))), val: Arg::Str(format!("lit{}", k)), map: m.clone() })
+                    .collect();
+                self.feat.map_appends += n;
+                self.feat.canons += 1;
+                self.feat.rewritten_map_key += 1;
+                let peer = self.peer_lit(c[2]);
+                v.push(I::Canon { peer, src: m.clone(), dst: cm.clone() });
+                env.maps.push((m, Shape::Str));
+                env.canon_maps.push((cm.clone(), Shape::Str));
+                let mut c2 = *c;
+                c2[0] = 65535;
+                let f = self.fold_inner(&c2, body, last, env, ctx, Some(cm));
+                v.push(f);
+                return I::seq_all(v);
+            }
             let s = self.fresh("$s");
             if c[1] % 4 == 1 {
                 // same-generation fill: several aps of distinct literals executed in one run;
@@ -828,7 +871,7 @@ impl<'a> Elab<'a> {
         let it = match &force_stream {
             Some(fs) => cands
                 .iter()
-                .find(|x| matches!(x, It::Stream(n, _) if n == fs))
+                .find(|x| matches!(x, It::Stream(n, _) | It::CanonMap(n, _) if n == fs))
                 .cloned()
                 .unwrap_or_else(|| cands[pick(c[0], cands.len())].clone()),
             None => cands[pick(c[0], cands.len())].clone(),
